@@ -4,32 +4,16 @@
 //   `#[cfg(kani)] mod vp_playback;` to src/lib.rs and run
 //   `cargo kani playback -Z concrete-playback -- vp_playback` (add --release for the release profile)
 
-/// Kani concrete playback for `c19::quick::full_index_unit_merge` (check: assertion failed: comb.is_empty() == (set2_len(sx) + set2_len(sy) == 0))
+/// Kani concrete playback for `c19::quick::full_index_unit_merge` (check: assertion failed: RelIndexRead::len_estimate(ix) == n)
 #[test]
-fn kani_concrete_playback_full_index_unit_merge_13961153457829343082() {
+fn kani_concrete_playback_full_index_unit_merge_2987687072440627580() {
     let concrete_vals: Vec<Vec<u8>> = vec![
-        // 0
-        vec![0],
-        // 1
-        vec![1],
-        // 2
-        vec![2],
-        // 2
-        vec![2],
-        // 1
-        vec![1],
-        // 1
-        vec![1],
-        // 2
-        vec![2],
         // 1
         vec![1],
         // 0
         vec![0],
-        // 1
-        vec![1],
-        // 2
-        vec![2],
+        // 0
+        vec![0],
         // 1
         vec![1],
         // 1
@@ -42,24 +26,58 @@ fn kani_concrete_playback_full_index_unit_merge_13961153457829343082() {
         vec![1],
         // 1
         vec![1],
+        // 0
+        vec![0],
+        // 0
+        vec![0],
+        // 1
+        vec![1],
+        // 1
+        vec![1],
+        // 0
+        vec![0],
+        // 0
+        vec![0],
+        // 1
+        vec![1],
+        // 1
+        vec![1],
+        // 0
+        vec![0],
+        // 0
+        vec![0],
+        // 1
+        vec![1],
+        // 1
+        vec![1],
+        // 0
+        vec![0],
+        // 0
+        vec![0],
+        // 1
+        vec![1],
+        // 0
+        vec![0],
+        // 0
+        vec![0],
     ];
     kani::concrete_playback_run(concrete_vals, crate::c19::quick::full_index_unit_merge);
 }
 /* native results:
 [
  {
-  "test": "kani_concrete_playback_full_index_unit_merge_13961153457829343082",
-  "check": "assertion failed: comb.is_empty() == (set2_len(sx) + set2_len(sy) == 0)",
+  "test": "kani_concrete_playback_full_index_unit_merge_2987687072440627580",
+  "check": "assertion failed: RelIndexRead::len_estimate(ix) == n",
   "profile": "dev",
   "native": "FAILED",
-  "panic": "panicked at src/c19.rs:410:4:\nassertion failed: comb.is_empty() == (set2_len(sx) + set2_len(sy) == 0)"
+  "panic": "panicked at src/c19.rs:375:4:\nassertion failed: RelIndexRead::len_estimate(ix) == n"
  },
  {
-  "test": "kani_concrete_playback_full_index_unit_merge_13961153457829343082",
-  "check": "assertion failed: comb.is_empty() == (set2_len(sx) + set2_len(sy) == 0)",
+  "test": "kani_concrete_playback_full_index_unit_merge_2987687072440627580",
+  "check": "assertion failed: RelIndexRead::len_estimate(ix) == n",
   "profile": "release",
   "native": "FAILED",
-  "panic": "panicked at src/c19.rs:410:4:\nassertion failed: comb.is_empty() == (set2_len(sx) + set2_len(sy) == 0)"
+  "panic": "panicked at src/c19.rs:375:4:\nassertion failed: RelIndexRead::len_estimate(ix) == n"
  }
 ]
 */
